@@ -540,6 +540,12 @@ func Exec(p *Program, io *StageIO) (*StageResult, error) {
 			n -= 100
 			extDir = true
 		}
+		slash := false
+		if n >= 300 && n < 400 {
+			// the directory output is named with a trailing slash
+			n -= 300
+			slash = true
+		}
 		if n >= 200 {
 			// a mapped producer whose forks leave complementary outputs
 			// null: even forks write no g, odd forks no f
@@ -579,6 +585,9 @@ func Exec(p *Program, io *StageIO) (*StageResult, error) {
 				}
 			}
 			outs[o.Name] = filewValue(p, io, o.T, n, io.FilesPath, o.Name, &pad)
+			if slash && o.T.K == TPath && outs[o.Name].K == VStr && !strings.HasPrefix(outs[o.Name].S, "@") {
+				outs[o.Name] = Str(outs[o.Name].S + "/")
+			}
 			if extDir && o.Name == "sp" && io.WriteFile != nil && io.Symlink != nil && io.OutsideDir != "" && io.FilesPath != "" {
 				ext := io.OutsideDir + "/refdata"
 				io.WriteFile(ext+"/ref.dat", FileContent(ext+"/ref.dat", 23))
